@@ -171,65 +171,70 @@ theorem dict_alpha_beta2_zero (p : DupPolicy) (α : ι → R) (β₁ β₂ lam :
     methods, chunk sizes and duplicate policies — over event files whose
     policy-processed events look the same from outcome `o` return the same
     weights for `o`, at every cue -/
-theorem ndl_row_depends_only (cfg₁ cfg₂ : NdlCfg) (hper₁ : 2 ≤ cfg₁.perFile) (hjob₁ : 1 ≤ cfg₁.perJob)
-    (hper₂ : 2 ≤ cfg₂.perFile) (hjob₂ : 1 ≤ cfg₂.perJob) (alpha β₁ β₂ lam : R)
+theorem ndl_row_depends_only (cfg₁ cfg₂ : NdlCfg) (alpha β₁ β₂ lam : R)
     (es₁ es₂ es₁' es₂' : List (Event String String)) (o : String)
+    (hcfg₁ : CfgOK cfg₁ (countNames es₁).2.length) (hcfg₂ : CfgOK cfg₂ (countNames es₂).2.length)
     (hp₁ : applyPolicyAll cfg₁.policy es₁ = some es₁') (hp₂ : applyPolicyAll cfg₂.policy es₂ = some es₂')
     (hfit₁ : Fits32 es₁) (hfit₂ : Fits32 es₂) (hview : es₁'.map (view o) = es₂'.map (view o)) :
     ∃ a b, ndlModel Generated.pyMagic Generated.pyVersion cfg₁ alpha β₁ β₂ lam none es₁ = .ok (a, es₁.length) ∧
       ndlModel Generated.pyMagic Generated.pyVersion cfg₂ alpha β₁ β₂ lam none es₂ = .ok (b, es₂.length) ∧
       ∀ c, a.get o c = b.get o c :=
-  ndlModel_row_depends_only _ _ (by decide) (by decide) cfg₁ cfg₂ hper₁ hjob₁ hper₂ hjob₂ alpha β₁ β₂ lam
-    es₁ es₂ es₁' es₂' o hp₁ hp₂ hfit₁ hfit₂ hview
+  ndlModel_row_depends_only _ _ (by decide) (by decide) cfg₁ cfg₂ alpha β₁ β₂ lam
+    es₁ es₂ es₁' es₂' o hcfg₁ hcfg₂ hp₁ hp₂ hfit₁ hfit₂ hview
 
 /-- **renaming equivariance, `ndl.ndl`**: renaming cues by an injection `f` and
     outcomes by an injection `g` in the event file renames the returned matrix -/
-theorem ndl_rename_equivariant (cfg : NdlCfg) (hper : 2 ≤ cfg.perFile) (hjob : 1 ≤ cfg.perJob)
+theorem ndl_rename_equivariant (cfg : NdlCfg)
     (alpha β₁ β₂ lam : R) (f g : String → String) (hf : Function.Injective f) (hg : Function.Injective g)
     (es es' : List (Event String String)) (hp : applyPolicyAll cfg.policy es = some es')
+    (hcfg : CfgOK cfg (countNames es).2.length)
+    (hcfg' : CfgOK cfg (countNames (es.map (fun e => ⟨e.cues.map f, e.outcomes.map g⟩))).2.length)
     (hfit : Fits32 es) (hfit' : Fits32 (es.map (fun e => ⟨e.cues.map f, e.outcomes.map g⟩))) :
     ∃ a b, ndlModel Generated.pyMagic Generated.pyVersion cfg alpha β₁ β₂ lam none es = .ok (a, es.length) ∧
       ndlModel Generated.pyMagic Generated.pyVersion cfg alpha β₁ β₂ lam none
         (es.map (fun e => ⟨e.cues.map f, e.outcomes.map g⟩)) = .ok (b, es.length) ∧
       ∀ o c, b.get (g o) (f c) = a.get o c :=
-  ndlModel_rename_equivariant _ _ (by decide) (by decide) cfg hper hjob alpha β₁ β₂ lam f g hf hg es es' hp
-    hfit hfit'
+  ndlModel_rename_equivariant _ _ (by decide) (by decide) cfg alpha β₁ β₂ lam f g hf hg es es' hp
+    hcfg hcfg' hfit hfit'
 
 /-- **affine in the initial weights, `ndl.ndl`**: three continued runs — from a
     labelled matrix `s` denoting `w + v` with λ, from `w` with λ, from `v` with
     λ = 0 — satisfy `result(s) = result(w) + result(v)` at every pair of labels -/
-theorem ndl_affine (cfg : NdlCfg) (hper : 2 ≤ cfg.perFile) (hjob : 1 ≤ cfg.perJob) (alpha β₁ β₂ lam : R)
+theorem ndl_affine (cfg : NdlCfg) (alpha β₁ β₂ lam : R)
     (w v s : LW R) (hs : ∀ o c, s.get o c = w.get o c + v.get o c)
     (es es' : List (Event String String)) (hp : applyPolicyAll cfg.policy es = some es')
+    (hcw : CfgOK cfg (mergedOutcomes w es).length) (hcv : CfgOK cfg (mergedOutcomes v es).length)
+    (hcs : CfgOK cfg (mergedOutcomes s es).length)
     (fw : Fits32With w es) (fv : Fits32With v es) (fs : Fits32With s es) :
     ∃ rs rw rv, ndlModel Generated.pyMagic Generated.pyVersion cfg alpha β₁ β₂ lam (some s) es = .ok (rs, es.length) ∧
       ndlModel Generated.pyMagic Generated.pyVersion cfg alpha β₁ β₂ lam (some w) es = .ok (rw, es.length) ∧
       ndlModel Generated.pyMagic Generated.pyVersion cfg alpha β₁ β₂ 0 (some v) es = .ok (rv, es.length) ∧
       ∀ o c, rs.get o c = rw.get o c + rv.get o c :=
-  ndlModel_affine _ _ (by decide) (by decide) cfg hper hjob alpha β₁ β₂ lam w v s hs es es' hp fw fv fs
+  ndlModel_affine _ _ (by decide) (by decide) cfg alpha β₁ β₂ lam w v s hs es es' hp hcw hcv hcs fw fv fs
 
 /-- **proportional to λ from zero, `ndl.ndl`** -/
-theorem ndl_lambda_homogeneous (cfg : NdlCfg) (hper : 2 ≤ cfg.perFile) (hjob : 1 ≤ cfg.perJob)
-    (alpha β₁ β₂ lam k : R) (es es' : List (Event String String))
+theorem ndl_lambda_homogeneous (cfg : NdlCfg)
+    (alpha β₁ β₂ lam k : R) (es es' : List (Event String String)) (hcfg : CfgOK cfg (countNames es).2.length)
     (hp : applyPolicyAll cfg.policy es = some es') (hfit : Fits32 es) :
     ∃ a b, ndlModel Generated.pyMagic Generated.pyVersion cfg alpha β₁ β₂ (k * lam) none es = .ok (a, es.length) ∧
       ndlModel Generated.pyMagic Generated.pyVersion cfg alpha β₁ β₂ lam none es = .ok (b, es.length) ∧
       ∀ o c, a.get o c = k * b.get o c :=
-  ndlModel_lambda_homogeneous _ _ (by decide) (by decide) cfg hper hjob alpha β₁ β₂ lam k es es' hp hfit
+  ndlModel_lambda_homogeneous _ _ (by decide) (by decide) cfg alpha β₁ β₂ lam k es es' hcfg hp hfit
 
 /-- **α = 0 and β₂ = 0, `ndl.ndl`** (its α is one number): with α = 0 the given
     weights come back; with β₂ = 0 the row of an outcome that occurs in no event
     comes back unchanged -/
-theorem ndl_alpha_beta2_zero (cfg : NdlCfg) (hper : 2 ≤ cfg.perFile) (hjob : 1 ≤ cfg.perJob)
+theorem ndl_alpha_beta2_zero (cfg : NdlCfg)
     (alpha β₁ β₂ lam : R) (w : LW R) (es es' : List (Event String String))
+    (hcfg : CfgOK cfg (mergedOutcomes w es).length)
     (hp : applyPolicyAll cfg.policy es = some es') (hfit : Fits32With w es) :
     (∃ r, ndlModel Generated.pyMagic Generated.pyVersion cfg 0 β₁ β₂ lam (some w) es = .ok (r, es.length) ∧
       ∀ o c, r.get o c = w.get o c) ∧
     (∀ o, (∀ e ∈ es, o ∉ e.outcomes) →
       ∃ r, ndlModel Generated.pyMagic Generated.pyVersion cfg alpha β₁ 0 lam (some w) es = .ok (r, es.length) ∧
         ∀ c, r.get o c = w.get o c) :=
-  ⟨ndlModel_alpha_zero _ _ (by decide) (by decide) cfg hper hjob β₁ β₂ lam w es es' hp hfit,
-    fun o ho => ndlModel_beta2_zero _ _ (by decide) (by decide) cfg hper hjob alpha β₁ lam w es es' hp hfit o ho⟩
+  ⟨ndlModel_alpha_zero _ _ (by decide) (by decide) cfg β₁ β₂ lam w es es' hcfg hp hfit,
+    fun o ho => ndlModel_beta2_zero _ _ (by decide) (by decide) cfg alpha β₁ lam w es es' hcfg hp hfit o ho⟩
 
 /-! non-vacuity: the affine law on a concrete run in ℤ with a non-zero start -/
 example :
@@ -275,8 +280,8 @@ example :
       ndlModel Generated.pyMagic Generated.pyVersion ⟨.keep, .threading, 1, 2⟩ (1 : ℤ) 2 3 5 none
         [⟨["a", "b", "a"], ["x"]⟩, ⟨["b"], ["y"]⟩, ⟨["a"], ["x", "y"]⟩] = .ok (b, 3) ∧
       ∀ o c, a.get o c = 3 * b.get o c :=
-  ndl_lambda_homogeneous ⟨.keep, .threading, 1, 2⟩ (by decide) (by decide) 1 2 3 5 3 _
-    [⟨["a", "b", "a"], ["x"]⟩, ⟨["b"], ["y"]⟩, ⟨["a"], ["x", "y"]⟩] (by decide +kernel)
+  ndl_lambda_homogeneous ⟨.keep, .threading, 1, 2⟩ 1 2 3 5 3 _
+    [⟨["a", "b", "a"], ["x"]⟩, ⟨["b"], ["y"]⟩, ⟨["a"], ["x", "y"]⟩] (by decide +kernel) (by decide +kernel)
     ⟨by decide, by decide +kernel, by decide +kernel, by decide⟩
 
 /-- `ndl_row_depends_only` instantiated: OpenMP vs threading, `True` vs `False`;
@@ -288,9 +293,10 @@ example :
       ndlModel Generated.pyMagic Generated.pyVersion ⟨.dedup, .threading, 1, 3⟩ (1 : ℤ) 2 3 5 none
         [⟨["a", "b", "a"], ["x", "z"]⟩, ⟨["b"], ["z"]⟩] = .ok (b, 2) ∧
       ∀ c, a.get "x" c = b.get "x" c :=
-  ndl_row_depends_only ⟨.keep, .openmp, 2, 2⟩ ⟨.dedup, .threading, 1, 3⟩ (by decide) (by decide) (by decide)
-    (by decide) 1 2 3 5 _ _ [⟨["a", "b"], ["x", "y"]⟩, ⟨["b"], ["y", "w"]⟩]
+  ndl_row_depends_only ⟨.keep, .openmp, 2, 2⟩ ⟨.dedup, .threading, 1, 3⟩ 1 2 3 5 _ _
+    [⟨["a", "b"], ["x", "y"]⟩, ⟨["b"], ["y", "w"]⟩]
     [⟨["a", "b"], ["x", "z"]⟩, ⟨["b"], ["z"]⟩] "x" (by decide +kernel) (by decide +kernel)
+    (by decide +kernel) (by decide +kernel)
     ⟨by decide, by decide +kernel, by decide +kernel, by decide⟩
     ⟨by decide, by decide +kernel, by decide +kernel, by decide⟩ (by decide +kernel)
 
